@@ -1,4 +1,4 @@
-import Penman.Proofs.Configure9
+import Penman.Proofs.Configure14
 /-!
 # C06 (and the `configure` half of C03) — layout markers shape the text but never its content; encoding is total
 
@@ -56,15 +56,17 @@ Hypotheses and why they are needed
   triple at all, trivially unreachable, and `configure` still succeeds
   (`isolated_explicit_top_succeeds`).
 
-UNPROVED (stated): the link from the cell store to the returned tree,
-```
-theorem configure_tree_triples (h : configure m g top = .ok T) (no alignment markers in g) :
-    (treeTriples T.node).Perm (placed st.cells)      -- st the store of `configure_sound_triples`
-```
-(every cell is reachable from the top cell exactly once). What is proved about the tree is that
-`buildNode` terminates without error on the store (`buildNode_total`) and that the store is a
-forest in creation order; the exact-once traversal is left open. C03/C06's "decodes to the same
-graph" additionally needs C01/C02 (parse ∘ format, interpret) and is outside this file.
+* store → tree (formerly UNPROVED, now proved) ↦ `configure_tree_triples`: without alignment markers
+  (`NoAlign g`) the triples written in the returned tree (`Node.edgeTriples`: every branch
+  `(v, role, target-or-nested-variable)`, `/` read as `:instance`, text untouched) are a permutation
+  of `placed st.cells`, and the tree has exactly one node per cell; hence
+  `configure_sound_tree`: the tree's triples are the graph's triples, each kept or inverted once,
+  null instances dropped, nothing duplicated. `configure_tree_written` is the alignment-agnostic
+  form (any epidata): the relations the tree writes (`Spec.Reading.Node.written`) are, up to
+  order, exactly the edges of the cells as `buildBranches` renders them (`edgeWritten`), plus the
+  implicit null label of unlabelled cells. Invariants behind it: keys distinct, every cell but the
+  top has exactly one incoming node edge (`Cfg.Deg`), J1 (`Cfg.J1`), forest (`Cfg.Forest`);
+  `Cfg.traverse` is the exactly-once traversal argument.
 
 FINDING (model defect, fixed during this work): the loop fuel was `2 * data.length + 2`; the real
 loop needs Θ(n²) rounds. With k blocked instance triples `(xᵢ :instance a)` followed by a chain
@@ -166,6 +168,39 @@ theorem sim_iff (m : Model) (l1 l2 : List Triple) :
 /-- a constant equal to 0 is not a null instance, so it is never dropped -/
 theorem zero_not_dropped (v : Str) : ¬ NullInst ⟨v, CONCEPT_ROLE, .num "0".toList⟩ := by
   intro h; simp [NullInst, Atom.isMissing] at h
+
+/-! ## 2b. from the store to the tree -/
+
+/-- **store → tree.** Without alignment markers the triples written in the configured tree are a
+    permutation of the triples placed in the store, and the tree has one node per cell. -/
+theorem configure_tree_triples {m : Model} {g : Graph} {top : Option Str} {T : Tree}
+    (hr : ∀ t ∈ g.triples, RoleOK2 m t) (hna : NoAlign g) (hne : g.triples.isEmpty = false)
+    (h : configure m g top = .ok T) :
+    ∃ t st, topOf g top = some t ∧ storeOf m g t = .ok st ∧ T.node.var = some t ∧
+      T.node.edgeTriples.Perm (placed st.cells) ∧
+      T.node.vars.Perm (ckeys st.cells) ∧ (ckeys st.cells).Nodup := by
+  obtain ⟨t, st, node, ht, _, hs, hb, rfl, _⟩ := configure_sound_triples hr hne h
+  obtain ⟨_, hv, _, hnd, hvar⟩ := Cfg.storeOf_tree hr hs hb
+  exact ⟨t, st, ht, hs, hvar, Cfg.storeOf_tree_triples hr hna hs hb, hv, hnd⟩
+
+/-- alignment-agnostic form: what the tree writes is what the cells hold -/
+theorem configure_tree_written {m : Model} {g : Graph} {top : Option Str} {T : Tree}
+    (hr : ∀ t ∈ g.triples, RoleOK2 m t) (hne : g.triples.isEmpty = false)
+    (h : configure m g top = .ok T) :
+    ∃ t st, topOf g top = some t ∧ storeOf m g t = .ok st ∧
+      (Spec.Reading.Node.written T.node).Perm (flat ownW st.cells) := by
+  obtain ⟨t, st, node, ht, _, hs, hb, rfl, _⟩ := configure_sound_triples hr hne h
+  exact ⟨t, st, ht, hs, (Cfg.storeOf_tree hr hs hb).1⟩
+
+/-- **C03/C06, content, at the level of the returned tree.** The triples written in the tree are
+    the graph's triples up to order, each possibly inverted by `preconfigure`, then kept, inverted
+    once, or (null instance) dropped — nothing duplicated, nothing else dropped. -/
+theorem configure_sound_tree {m : Model} {g : Graph} {top : Option Str} {T : Tree}
+    (hr : ∀ t ∈ g.triples, RoleOK2 m t) (hna : NoAlign g) (hne : g.triples.isEmpty = false)
+    (h : configure m g top = .ok T) :
+    ∃ l1, Pre m g.triples l1 ∧ Sim m l1 T.node.edgeTriples := by
+  obtain ⟨t, st, node, ht, _, hs, hb, rfl, l1, hpre, hsim⟩ := configure_sound_triples hr hne h
+  exact ⟨l1, hpre, hsim.perm_right (Cfg.storeOf_tree_triples hr hna hs hb).symm⟩
 
 /-! ## 4. success ⇔ connected -/
 
@@ -303,6 +338,8 @@ example : ∃ T, configure {} g1 none = .ok T :=
   configure_complete (t := "b".toList) (by decide) (by decide) (by decide) (by decide) g1_connected_b
 example : ∃ T, configure {} g1 (some "d".toList) = .ok T :=
   configure_complete (t := "d".toList) (by decide) (by decide) (by decide) (by decide) g1_connected_d
+
+example : NoAlign { g1 with epidata := [(T "b" ":ARG0" (S "d"), [.push "b".toList, .pop])] } := by decide
 
 /-- a disconnected graph and a bad top: the error cases are inhabited -/
 def g2 : Graph := { triples := [T "a" ":instance" (S "x"), T "b" ":instance" (S "y")] }
